@@ -21,10 +21,9 @@ CONSTANTS
   Ages,            \* metric ages in seconds (degrade time is 1 minute); not part of the state: the
                    \* predicates are evaluated for every age at every state (a stale input makes the rest irrelevant)
   MaxSys, MaxKRes, MaxAnno, MaxApp, MaxReq, MaxUse, MaxDang,
-  PodSets,         \* set of sequences of pod shapes [prio, qos, phase, metric, numa]
-  DangSets,        \* set of sequences of dangling-metric priorities
-  AppSets,         \* set of sequences of host-app priorities
-  ZoneCfgs         \* set of sequences of zone capacities
+  Scenarios        \* set of [pods: sequence of pod shapes [prio, qos, phase, metric, numa],
+                   \*         dang: sequence of dangling-metric priorities, apps: sequence of host-app priorities,
+                   \*         zones: sequence of zone capacities]
 
 VARIABLE inp
 vars == <<inp>>
@@ -36,8 +35,8 @@ MkPod(s)  == [prio |-> s.prio, qos |-> s.qos, phase |-> s.phase, metric |-> s.me
 MkUse(pr) == [prio |-> pr, use |-> RR(0)]
 
 Init ==
-  \E c \in Caps, pc \in PolC, pm \in PolM, pct \in Pcts, ps \in PodSets, ds \in DangSets,
-     hs \in AppSets, zc \in ZoneCfgs :
+  \E c \in Caps, pc \in PolC, pm \in PolM, pct \in Pcts, sc \in Scenarios :
+    LET ps == sc.pods  ds == sc.dang  hs == sc.apps  zc == sc.zones IN
     inp = [cap |-> RR(c), alloc |-> RR(c), anno |-> RR(0), thr |-> RR(100),
            pol |-> [cpu |-> pc, mem |-> pm], pct |-> RR(pct), degrade |-> 1, age |-> 0, sys |-> RR(0),
            apps |-> [k \in 1..Len(hs) |-> MkUse(hs[k])],
@@ -68,7 +67,7 @@ Aged(i, a) == [i EXCEPT !.age = a]
 ImplOK == \A a \in Ages : BatchOutOK(Aged(inp, a), BatchImpl(Aged(inp, a)))
 \* every raise the model takes is a raise in the sense of the property
 RaiseIsRaise == [][Dominates(inp', inp)]_vars
-Mono == [][\A a \in Ages : MonoOK(BatchImpl(Aged(inp, a)), BatchImpl(Aged(inp', a)))]_vars
+Mono == [][MonoOK(BatchImpl(inp), BatchImpl(inp'))]_vars     \* (with a stale metric both sides are withdrawn)
 
 \* ---------------------------------------------------------------- menus
 Shape(pr, q, ph, m, n) == [prio |-> pr, qos |-> q, phase |-> ph, metric |-> m, numa |-> n]
@@ -77,23 +76,31 @@ KindsAll   == KindsSmall \cup {<<"mid", "LS">>, <<"none", "LS">>, <<"free", "BE"
 ShapesOf(kinds, phases, numas) ==
   {Shape(k[1], k[2], ph, m, n) : k \in kinds, ph \in phases, m \in BOOLEAN, n \in numas}
 
-\* quick: at most one pod, no NUMA binding variety
-Pods1Small == {<<>>} \cup {<<s>> : s \in ShapesOf(KindsSmall, {"Running", "Succeeded"}, {<<>>, <<0>>})}
-\* thorough: one pod of every kind / phase / binding
-Pods1All == {<<>>} \cup {<<s>> : s \in ShapesOf(KindsAll, {"Running", "Pending", "Succeeded"}, {<<>>, <<0>>, <<1>>})}
-\* two pods: interaction of the sums
-Pods2 == {<<s, t>> : s \in ShapesOf({<<"prod", "LS">>, <<"prod", "LSE">>}, {"Running"}, {<<>>, <<0>>}),
-                     t \in ShapesOf({<<"prod", "LS">>, <<"mid", "LS">>, <<"batch", "BE">>}, {"Running", "Succeeded"}, {<<>>})}
+Scen(P, D, A, Zs) == [pods : P, dang : D, apps : A, zones : Zs]
+ProdLSm == Shape("prod", "LS", "Running", TRUE, <<>>)
+
+\* quick: (A) one pod of a few kinds, no zones; (B) two zones, pods bound / unbound; (C) a dangling metric next to
+\* no pod or an ordinary one; (D) a host application
+ScenQuick ==
+  Scen({<<>>} \cup {<<s>> : s \in ShapesOf(KindsSmall, {"Running", "Succeeded"}, {<<>>})}, {<<>>}, {<<>>}, {<<>>})
+  \cup Scen({<<s>> : s \in ShapesOf({<<"prod", "LS">>, <<"prod", "LSE">>}, {"Running"}, {<<>>, <<0>>})
+                       \cup {Shape("prod", "LS", "Succeeded", TRUE, <<0>>)}}, {<<>>}, {<<>>}, {<<3, 3>>})
+  \cup Scen({<<>>, <<ProdLSm>>}, {<<"prod">>, <<"batch">>}, {<<>>}, {<<>>, <<3, 3>>})
+  \cup Scen({<<>>}, {<<>>}, {<<"prod">>, <<"batch">>}, {<<>>})
+
+\* thorough: every kind / phase / binding alone over 0, 1 (uneven: one zone = whole node) and 2 zones; pairs of pods;
+\* dangling metrics and host applications of every priority next to a pod
+ScenThorough ==
+  Scen({<<>>} \cup {<<s>> : s \in ShapesOf(KindsAll, {"Running", "Pending", "Succeeded"}, {<<>>})}, {<<>>}, {<<>>}, {<<>>, <<6>>})
+  \cup Scen({<<s>> : s \in ShapesOf(KindsAll, {"Running", "Succeeded"}, {<<>>, <<0>>, <<1>>, <<0, 1>>})}, {<<>>}, {<<>>}, {<<4, 2>>})
+  \cup Scen({<<s, t>> : s \in ShapesOf({<<"prod", "LS">>, <<"prod", "LSE">>}, {"Running"}, {<<>>, <<0>>}),
+                         t \in ShapesOf({<<"prod", "LS">>, <<"mid", "LS">>, <<"batch", "BE">>}, {"Running", "Succeeded"}, {<<>>})},
+          {<<>>}, {<<>>}, {<<>>, <<3, 3>>})
+  \cup Scen({<<>>, <<ProdLSm>>}, {<<"prod">>, <<"batch">>, <<"none">>, <<"mid">>, <<"free">>, <<"prod", "batch">>},
+          {<<>>, <<"prod">>}, {<<>>, <<3, 3>>})
+  \cup Scen({<<>>, <<ProdLSm>>}, {<<>>}, {<<"prod">>, <<"mid">>, <<"batch">>, <<"prod", "batch">>}, {<<>>, <<3, 3>>})
 
 AgesAll == {0, 60, 61, -1}
 PctsQuick == {-1, 50}
-PctsAll == {-1, 0, 25, 100}
-DangNone == {<<>>}
-DangSmall == {<<>>, <<"prod">>, <<"batch">>}
-DangSome == {<<>>, <<"prod">>, <<"batch">>, <<"none">>, <<"mid">>}
-AppsNone == {<<>>}
-AppsSome == {<<>>, <<"prod">>, <<"batch">>}
-ZonesNone == {<<>>}
-Zones02 == {<<>>, <<3, 3>>}
-Zones012 == {<<>>, <<6>>, <<4, 2>>}
+PctsAll == {-1, 0, 50, 100}
 =============================================================================
